@@ -22,7 +22,7 @@ roller's own `recorded w t succ`).
 * §A `getD'` lemmas.  §B counting: `inWin g w` (bucket ids of window `w`: reservoir, then current), `bsum`/`bktS`/`bktF`
   (sum of the counters of the buckets with `ts ≥ x`, in `Int`), `recN`/`recS`/`recF` (number of `recorded w stamp k`
   log entries with `stamp ≥ x`), `lastRoll w lg` (tick of the last roll), `lim cfg w lg` (its trim limit).
-* §C `Eff`/`step_eff`: the effect of one step on windows and buckets, in six classes (quiet, back-in-time reporter,
+* §C `WEff`/`step_eff`: the effect of one step on windows and buckets, in six classes (quiet, back-in-time reporter,
   CAS loser, add to the current bucket, winning roll, new window).
 * §D `SInv` (structure, no guard needed, for every `Reach`able configuration): bucket ids of a window exist, no id
   twice in `inWin g w` (each bucket at most once in the reservoir, the current bucket not in it), different windows
@@ -30,7 +30,7 @@ roller's own `recorded w t succ`).
 * §E–F log and bucket-sum lemmas; `fold_trim`: the model's wrapped fold over the trimmed reservoir is the exact sum.
 * §G the guard (`NoWrap`, `TB`, `SchedOK`: readings within `±2^61`, `0 < interval, window ≤ 2^61`, fewer than `2^61`
   schedule entries), the per-thread promise `LOk` (a pending roller read `t ≥ ts(loaded bucket) + interval`), the
-  global invariant `GInv` with the counting equation
+  global invariant `WGInv` with the counting equation
   `∀ x ≥ lim w, bsum g k (inWin g w) x = recN w k x lg`, "the current bucket's timestamp is the last roll's tick",
   and `RollsOK`: every `rolled w t s f` entry has `s/f =` the `recorded` entries before it with stamp `≥ t - window`
   and `t ≥ (previous roll tick of w) + interval`.
@@ -114,36 +114,36 @@ def SameWins (g g' : CG) : Prop :=
 def ObjsStep (g g' : CG) : Prop :=
   g'.objs = g.objs ∨ ∃ n, g'.objs = g.objs ++ [n] ∧ (n.win = 0 ∨ n.win < g'.wins.length)
 
-inductive Eff (cfg : Config) (g : CG) : L → CG → List Obs → Prop
-  | quiet {l g' obs} : g'.buckets = g.buckets → SameWins g g' → noW obs = true → Eff cfg g l g' obs
+inductive WEff (cfg : Config) (g : CG) : L → CG → List Obs → Prop
+  | quiet {l g' obs} : g'.buckets = g.buckets → SameWins g g' → noW obs = true → WEff cfg g l g' obs
   | back {g'} (c : Call) (o w : Nat) (t : Int) :
       t < (g.bucket (g.win w).cur).ts →
       g'.buckets = g.buckets ++ [mkBucket t (decide (c = .succ))] →
       g'.wins = setAt g.wins w { g.win w with res := (g.win w).res ++ [g.buckets.length] } →
-      Eff cfg g (.w1 c o w t) g' [.recorded w t (decide (c = .succ)), .ret none]
+      WEff cfg g (.w1 c o w t) g' [.recorded w t (decide (c = .succ)), .ret none]
   | lose {g'} (c : Call) (o w : Nat) (t : Int) (b : Nat) :
       (g.win w).cur ≠ b →
       g'.buckets = g.buckets ++ [mkBucket t (decide (c = .succ))] →
       g'.wins = setAt g.wins w { g.win w with res := (g.win w).res ++ [g.buckets.length] } →
-      Eff cfg g (.w2 c o w t b) g' [.recorded w t (decide (c = .succ)), .ret none]
+      WEff cfg g (.w2 c o w t b) g' [.recorded w t (decide (c = .succ)), .ret none]
   | add {g'} (c : Call) (o w : Nat) (t : Int) :
       ¬ t < (g.bucket (g.win w).cur).ts →
       t < wrap64 ((g.bucket (g.win w).cur).ts + cfg.interval) →
       g'.buckets = setAt g.buckets (g.win w).cur ((g.bucket (g.win w).cur).add (decide (c = .succ))) →
       g'.wins = g.wins →
-      Eff cfg g (.w1 c o w t) g' [.recorded w (g.bucket (g.win w).cur).ts (decide (c = .succ)), .ret none]
+      WEff cfg g (.w1 c o w t) g' [.recorded w (g.bucket (g.win w).cur).ts (decide (c = .succ)), .ret none]
   | roll {g'} (c : Call) (o w : Nat) (t : Int) (g1 : CG) (kept : List Nat) :
       g1.buckets = g.buckets ++ [mkBucket t (decide (c = .succ))] →
       kept = trimIds g1 (wrap64 (t - cfg.window)) ((g.win w).res ++ [(g.win w).cur]) →
       g'.buckets = g1.buckets →
       g'.wins = setAt g.wins w { g.win w with cur := g.buckets.length, res := kept } →
-      Eff cfg g (.w2 c o w t (g.win w).cur) g'
+      WEff cfg g (.w2 c o w t (g.win w).cur) g'
         [.rolled w t (sumIdsS g1 kept) (sumIdsF g1 kept), .recorded w t (decide (c = .succ))]
   | new {g' obs} (o : Nat) (t1 t2 : Int) :
       g'.buckets = g.buckets ++ [⟨t1, 0, 0⟩] →
       g'.wins = g.wins ++ [⟨g.buckets.length, [], (0, 0)⟩] →
       noW obs = true →
-      Eff cfg g (.h3 .succ o t1 t2) g' obs
+      WEff cfg g (.h3 .succ o t1 t2) g' obs
 
 theorem sameWins_refl (g : CG) : SameWins g g := ⟨rfl, fun _ => ⟨rfl, rfl⟩⟩
 
@@ -174,16 +174,16 @@ set_option hygiene false in
 local macro "fin_quiet" : tactic => `(tactic| (
   simp only [Option.some.injEq, Prod.mk.injEq] at hs
   obtain ⟨rfl, rfl, rfl⟩ := hs
-  exact ⟨Or.inl rfl, Eff.quiet rfl (sameWins_refl _) (by simp [noW, Obs.isRec, Obs.isRolled])⟩))
+  exact ⟨Or.inl rfl, WEff.quiet rfl (sameWins_refl _) (by simp [noW, Obs.isRec, Obs.isRolled])⟩))
 
 set_option hygiene false in
 local macro "fin_publish" : tactic => `(tactic| (
   simp only [Option.some.injEq, Prod.mk.injEq] at hs
   obtain ⟨rfl, rfl, rfl⟩ := hs
-  exact ⟨Or.inr ⟨_, rfl, Or.inl rfl⟩, Eff.quiet rfl (sameWins_refl _) (by simp [noW, Obs.isRec, Obs.isRolled])⟩))
+  exact ⟨Or.inr ⟨_, rfl, Or.inl rfl⟩, WEff.quiet rfl (sameWins_refl _) (by simp [noW, Obs.isRec, Obs.isRolled])⟩))
 
 theorem step_eff {cfg : Config} {t : Tid} {g g' : CG} {l l' : L} {a : Act} {obs : List Obs}
-    (hs : step cfg t g l a = some (g', l', obs)) : ObjsStep g g' ∧ Eff cfg g l g' obs := by
+    (hs : step cfg t g l a = some (g', l', obs)) : ObjsStep g g' ∧ WEff cfg g l g' obs := by
   unfold step at hs
   split at hs
   case h_1 => fin_quiet
@@ -209,13 +209,13 @@ theorem step_eff {cfg : Config} {t : Tid} {g g' : CG} {l l' : L} {a : Act} {obs 
     · rename_i h1
       simp only [Option.some.injEq, Prod.mk.injEq] at hs
       obtain ⟨rfl, rfl, rfl⟩ := hs
-      exact ⟨Or.inl rfl, Eff.back c o w t h1 rfl rfl⟩
+      exact ⟨Or.inl rfl, WEff.back c o w t h1 rfl rfl⟩
     · rename_i h1
       split at hs
       · rename_i h2
         simp only [Option.some.injEq, Prod.mk.injEq] at hs
         obtain ⟨rfl, rfl, rfl⟩ := hs
-        exact ⟨Or.inl rfl, Eff.add c o w t h1 h2 rfl rfl⟩
+        exact ⟨Or.inl rfl, WEff.add c o w t h1 h2 rfl rfl⟩
       · fin_quiet
   case h_8 c o w t b =>
     dsimp only at hs
@@ -224,11 +224,11 @@ theorem step_eff {cfg : Config} {t : Tid} {g g' : CG} {l l' : L} {a : Act} {obs 
       simp only [Option.some.injEq, Prod.mk.injEq] at hs
       obtain ⟨rfl, rfl, rfl⟩ := hs
       subst h1
-      exact ⟨Or.inl rfl, Eff.roll c o w t _ _ rfl rfl rfl rfl⟩
+      exact ⟨Or.inl rfl, WEff.roll c o w t _ _ rfl rfl rfl rfl⟩
     · rename_i h1
       simp only [Option.some.injEq, Prod.mk.injEq] at hs
       obtain ⟨rfl, rfl, rfl⟩ := hs
-      exact ⟨Or.inl rfl, Eff.lose c o w t b h1 rfl rfl⟩
+      exact ⟨Or.inl rfl, WEff.lose c o w t b h1 rfl rfl⟩
   case h_9 c o w e =>
     dsimp only at hs
     have hn := afterReport_noW cfg c o (some e)
@@ -236,7 +236,7 @@ theorem step_eff {cfg : Config} {t : Tid} {g g' : CG} {l l' : L} {a : Act} {obs 
     obtain ⟨l1, ob1⟩ := r
     simp only [Option.some.injEq, Prod.mk.injEq] at hs
     obtain ⟨rfl, rfl, rfl⟩ := hs
-    exact ⟨Or.inl rfl, Eff.quiet rfl (sameWins_snap _ _ w e rfl) hn⟩
+    exact ⟨Or.inl rfl, WEff.quiet rfl (sameWins_snap _ _ w e rfl) hn⟩
   case h_10 => fin_quiet
   case h_11 =>
     split at hs
@@ -250,7 +250,7 @@ theorem step_eff {cfg : Config} {t : Tid} {g g' : CG} {l l' : L} {a : Act} {obs 
     split at hs
     · simp only [Option.some.injEq, Prod.mk.injEq] at hs
       obtain ⟨rfl, rfl, rfl⟩ := hs
-      refine ⟨Or.inr ⟨_, rfl, Or.inr ?_⟩, Eff.new o t1 t2 rfl rfl (by simp [noW, Obs.isRec, Obs.isRolled])⟩
+      refine ⟨Or.inr ⟨_, rfl, Or.inr ?_⟩, WEff.new o t1 t2 rfl rfl (by simp [noW, Obs.isRec, Obs.isRolled])⟩
       simp [publish]
     · fin_quiet
   case h_17 =>
@@ -396,7 +396,7 @@ theorem sinv_push {g g' : CG} {w : Nat} {bk : Bucket} (h : SInv g)
         · have := hr b (by simp [hb]); omega
   · exact sinv_grow h (wins_set_ge hwins (by omega)) (by omega)
 
-theorem sinv_step {cfg : Config} {g g' : CG} {l : L} {obs : List Obs} (h : SInv g) (he : Eff cfg g l g' obs) :
+theorem sinv_step {cfg : Config} {g g' : CG} {l : L} {obs : List Obs} (h : SInv g) (he : WEff cfg g l g' obs) :
     SInv g' := by
   cases he with
   | quiet hb hw _ =>
@@ -790,7 +790,7 @@ theorem lok_mono {cfg : Config} {g g' : CG} {l : L} (hm : Mono g g') (h : LOk cf
     exact ⟨by omega, h2, by omega, by rw [m3 _ h3]; exact h4⟩
   · omega
 
-theorem mono_of_eff {cfg : Config} {g g' : CG} {l : L} {obs : List Obs} (he : Eff cfg g l g' obs) : Mono g g' := by
+theorem mono_of_eff {cfg : Config} {g g' : CG} {l : L} {obs : List Obs} (he : WEff cfg g l g' obs) : Mono g g' := by
   cases he with
   | quiet hb hw _ => exact ⟨by rw [hw.1]; exact Nat.le_refl _, by rw [hb]; exact Nat.le_refl _, fun b _ => by simp [CG.bucket, hb]⟩
   | back c o w t _ hb hw =>
@@ -808,7 +808,7 @@ theorem mono_of_eff {cfg : Config} {g g' : CG} {l : L} {obs : List Obs} (he : Ef
   | new o t1 t2 hb hw _ =>
     exact ⟨by simp [hw], by simp [hb], fun b h => by rw [bucket_app_lt hb h]⟩
 
-structure GInv (cfg : Config) (n : Nat) (lg : List (Tid × Obs)) (g : CG) : Prop where
+structure WGInv (cfg : Config) (n : Nat) (lg : List (Tid × Obs)) (g : CG) : Prop where
   objw : ∀ o, (g.obj o).win < g.wins.length
   cnt : ∀ b k, 0 ≤ selB k (g.bucket b) ∧ selB k (g.bucket b) ≤ n
   ts : ∀ b, TB (g.bucket b).ts
@@ -838,7 +838,7 @@ theorem objw_step {g g' : CG} (h : ∀ o, (g.obj o).win < g.wins.length) (ho : O
         show 0 < _
         omega
 
-theorem ginv_init (cfg : Config) (t1 t2 : Int) (h1 : TB t1) : GInv cfg 0 [] (initG t1 t2) := by
+theorem ginv_init (cfg : Config) (t1 t2 : Int) (h1 : TB t1) : WGInv cfg 0 [] (initG t1 t2) := by
   have hb : ∀ b, (initG t1 t2).bucket b = ⟨t1, 0, 0⟩ ∨ (initG t1 t2).bucket b = dfltBucket := by
     intro b
     cases b with
@@ -877,8 +877,8 @@ theorem recN_quiet_append {obs : List Obs} (h : noW obs = true) (lg : List (Tid 
   rw [recN_append, recN_quiet h]; omega
 
 theorem ginv_quiet {cfg : Config} {n : Nat} {lg : List (Tid × Obs)} {g g' : CG} {obs : List Obs} (t : Tid)
-    (hG : GInv cfg n lg g) (ho : ObjsStep g g') (hb : g'.buckets = g.buckets) (hw : SameWins g g')
-    (hq : noW obs = true) : GInv cfg (n + 1) (lg ++ tag t obs) g' := by
+    (hG : WGInv cfg n lg g) (ho : ObjsStep g g') (hb : g'.buckets = g.buckets) (hw : SameWins g g')
+    (hq : noW obs = true) : WGInv cfg (n + 1) (lg ++ tag t obs) g' := by
   have hbk : ∀ b, g'.bucket b = g.bucket b := fun b => by simp [CG.bucket, hb]
   constructor
   · exact objw_step hG.objw ho (by rw [hw.1]; exact Nat.le_refl _)
@@ -917,10 +917,10 @@ theorem bsum_old {g g' : CG} {bk : Bucket} (hS : SInv g) (hb : g'.buckets = g.bu
   bsum_congr k x (fun b hb' => bucket_app_lt hb (hS.rng w hw b (hsub b hb')))
 
 theorem ginv_push {cfg : Config} {n : Nat} {lg : List (Tid × Obs)} {g g' : CG} (t : Tid) {w : Nat} {tt : Int}
-    {sc : Bool} (hS : SInv g) (hG : GInv cfg n lg g) (hw : w < g.wins.length) (ht : TB tt) (ho : ObjsStep g g')
+    {sc : Bool} (hS : SInv g) (hG : WGInv cfg n lg g) (hw : w < g.wins.length) (ht : TB tt) (ho : ObjsStep g g')
     (hb : g'.buckets = g.buckets ++ [mkBucket tt sc])
     (hwins : g'.wins = setAt g.wins w { g.win w with res := (g.win w).res ++ [g.buckets.length] }) :
-    GInv cfg (n + 1) (lg ++ tag t [.recorded w tt sc, .ret none]) g' := by
+    WGInv cfg (n + 1) (lg ++ tag t [.recorded w tt sc, .ret none]) g' := by
   have hlen := wins_set_length hwins
   have hcur : ∀ w', (g'.win w').cur = (g.win w').cur := by
     intro w'
@@ -967,10 +967,10 @@ theorem ginv_push {cfg : Config} {n : Nat} {lg : List (Tid × Obs)} {g g' : CG} 
     simp [tag, Obs.isRolled]
 
 theorem ginv_add {cfg : Config} {n : Nat} {lg : List (Tid × Obs)} {g g' : CG} (t : Tid) {w : Nat} {sc : Bool}
-    (hS : SInv g) (hG : GInv cfg n lg g) (hn : n < 2^61) (hw : w < g.wins.length) (ho : ObjsStep g g')
+    (hS : SInv g) (hG : WGInv cfg n lg g) (hn : n < 2^61) (hw : w < g.wins.length) (ho : ObjsStep g g')
     (hb : g'.buckets = setAt g.buckets (g.win w).cur ((g.bucket (g.win w).cur).add sc))
     (hwins : g'.wins = g.wins) :
-    GInv cfg (n + 1) (lg ++ tag t [.recorded w (g.bucket (g.win w).cur).ts sc, .ret none]) g' := by
+    WGInv cfg (n + 1) (lg ++ tag t [.recorded w (g.bucket (g.win w).cur).ts sc, .ret none]) g' := by
   have hbl : (g.win w).cur < g.buckets.length := hS.rng w hw _ (by simp [inWin])
   have hsw := sameWins_of_wins hwins
   have hsel : ∀ k, selB k (g'.bucket (g.win w).cur) = selB k (g.bucket (g.win w).cur) + if sc = k then 1 else 0 := by
@@ -1023,13 +1023,13 @@ theorem ginv_add {cfg : Config} {n : Nat} {lg : List (Tid × Obs)} {g g' : CG} (
 
 theorem ginv_roll {cfg : Config} {n : Nat} {lg : List (Tid × Obs)} {g g' g1 : CG} (t : Tid) {w : Nat} {tt : Int}
     {sc : Bool} {kept : List Nat}
-    (hS : SInv g) (hG : GInv cfg n lg g) (hn : n < 2^61) (hcfg : NoWrap cfg) (hw : w < g.wins.length) (ht : TB tt)
+    (hS : SInv g) (hG : WGInv cfg n lg g) (hn : n < 2^61) (hcfg : NoWrap cfg) (hw : w < g.wins.length) (ht : TB tt)
     (hint : (g.bucket (g.win w).cur).ts + cfg.interval ≤ tt) (ho : ObjsStep g g')
     (hg1 : g1.buckets = g.buckets ++ [mkBucket tt sc])
     (hk : kept = trimIds g1 (wrap64 (tt - cfg.window)) ((g.win w).res ++ [(g.win w).cur]))
     (hb1 : g'.buckets = g1.buckets)
     (hwins : g'.wins = setAt g.wins w { g.win w with cur := g.buckets.length, res := kept }) :
-    GInv cfg (n + 1) (lg ++ tag t [.rolled w tt (sumIdsS g1 kept) (sumIdsF g1 kept), .recorded w tt sc]) g' := by
+    WGInv cfg (n + 1) (lg ++ tag t [.rolled w tt (sumIdsS g1 kept) (sumIdsF g1 kept), .recorded w tt sc]) g' := by
   obtain ⟨c1, c2, c3, c4⟩ := hcfg
   have hlen := wins_set_length hwins
   have hb : g'.buckets = g.buckets ++ [mkBucket tt sc] := hb1.trans hg1
@@ -1118,10 +1118,10 @@ theorem ginv_roll {cfg : Config} {n : Nat} {lg : List (Tid × Obs)} {g g' g1 : C
       | cons e2 pre3 => simp [tag] at he
 
 theorem ginv_new {cfg : Config} {n : Nat} {lg : List (Tid × Obs)} {g g' : CG} {obs : List Obs} (t : Tid) {t1 : Int}
-    (hS : SInv g) (hG : GInv cfg n lg g) (ht1 : TB t1) (ho : ObjsStep g g')
+    (hS : SInv g) (hG : WGInv cfg n lg g) (ht1 : TB t1) (ho : ObjsStep g g')
     (hb : g'.buckets = g.buckets ++ [⟨t1, 0, 0⟩])
     (hwins : g'.wins = g.wins ++ [⟨g.buckets.length, [], (0, 0)⟩]) (hq : noW obs = true) :
-    GInv cfg (n + 1) (lg ++ tag t obs) g' := by
+    WGInv cfg (n + 1) (lg ++ tag t obs) g' := by
   have hlen : g'.wins.length = g.wins.length + 1 := by simp [hwins]
   have hwold : ∀ w, w < g.wins.length → g'.win w = g.win w := by
     intro w hw; simp only [CG.win, hwins]; exact getD'_append_lt _ _ _ _ hw
@@ -1219,8 +1219,8 @@ theorem step_lok {cfg : Config} {t : Tid} {g g' : CG} {l l' : L} {a : Act} {obs 
 /-! ## H. The invariant along runs -/
 
 theorem ginv_step {cfg : Config} {n : Nat} {lg : List (Tid × Obs)} {g g' : CG} {l : L} {obs : List Obs} (t : Tid)
-    (hcfg : NoWrap cfg) (hn : n < 2^61) (hS : SInv g) (hG : GInv cfg n lg g) (hl : LOk cfg g l)
-    (ho : ObjsStep g g') (he : Eff cfg g l g' obs) : GInv cfg (n + 1) (lg ++ tag t obs) g' := by
+    (hcfg : NoWrap cfg) (hn : n < 2^61) (hS : SInv g) (hG : WGInv cfg n lg g) (hl : LOk cfg g l)
+    (ho : ObjsStep g g') (he : WEff cfg g l g' obs) : WGInv cfg (n + 1) (lg ++ tag t obs) g' := by
   cases he with
   | quiet hb hw hq => exact ginv_quiet t hG ho hb hw hq
   | back c o w tt _ hb hw => exact ginv_push t hS hG hl.1 hl.2 ho hb hw
@@ -1233,7 +1233,7 @@ theorem ginv_step {cfg : Config} {n : Nat} {lg : List (Tid × Obs)} {g g' : CG} 
 /-- **The invariant of C10** for the shared state `g`, the thread locals `ls`, the ghost log `lg` emitted so far and
 the number `n` of steps taken so far. -/
 def WInv (cfg : Config) (n : Nat) (lg : List (Tid × Obs)) (g : CG) (ls : Tid → L) : Prop :=
-  SInv g ∧ GInv cfg n lg g ∧ ∀ tid, LOk cfg g (ls tid)
+  SInv g ∧ WGInv cfg n lg g ∧ ∀ tid, LOk cfg g (ls tid)
 
 theorem winv_init (cfg : Config) (t1 t2 : Int) (h1 : TB t1) : WInv cfg 0 [] (initG t1 t2) (fun _ => L.idle) :=
   ⟨sinv_init t1 t2, ginv_init cfg t1 t2 h1, fun _ => trivial⟩
@@ -1250,11 +1250,11 @@ theorem winv_step {cfg : Config} {n : Nat} {lg : List (Tid × Obs)} {g g' : CG} 
   · rw [upd_other _ _ _ _ e]
     exact lok_mono (mono_of_eff he) (hL tid)
 
-theorem run_cons_none {M : Machine} {c : Conc.Config M} {t : Tid} {a : M.Act} {rest : List (Tid × M.Act)}
+theorem Wrun_cons_none {M : Machine} {c : Conc.Config M} {t : Tid} {a : M.Act} {rest : List (Tid × M.Act)}
     (h : M.step t c.g (c.l t) a = none) : run M c ((t, a) :: rest) = run M c rest := by
   simp only [run, h]
 
-theorem run_cons_some {M : Machine} {c : Conc.Config M} {t : Tid} {a : M.Act} {rest : List (Tid × M.Act)}
+theorem Wrun_cons_some {M : Machine} {c : Conc.Config M} {t : Tid} {a : M.Act} {rest : List (Tid × M.Act)}
     {g' : M.G} {l' : M.L} {obs : List M.Obs} (h : M.step t c.g (c.l t) a = some (g', l', obs)) :
     run M c ((t, a) :: rest) =
       ((run M ⟨g', upd c.l t l'⟩ rest).1, obs.map (fun o => (t, o)) ++ (run M ⟨g', upd c.l t l'⟩ rest).2) := by
@@ -1277,11 +1277,11 @@ theorem run_ind_n (M : Machine) (N : Nat) (A : Tid → M.Act → Prop)
     simp only [List.length_cons] at hn
     cases h : M.step t c.g (c.l t) a with
     | none =>
-      rw [run_cons_none h]
+      rw [Wrun_cons_none h]
       exact ih c lg n (by omega) hP (fun e he => hA e (List.mem_cons_of_mem _ he))
     | some r =>
       obtain ⟨g', l', obs⟩ := r
-      rw [run_cons_some h]
+      rw [Wrun_cons_some h]
       have h1 := hstep n lg c t a g' l' obs (by omega) hP (hA (t, a) (List.mem_cons_self ..)) h
       obtain ⟨m, hm, h2⟩ := ih _ _ (n + 1) (by omega) h1 (fun e he => hA e (List.mem_cons_of_mem _ he))
       exact ⟨m, hm, by simpa [List.append_assoc] using h2⟩
@@ -1463,7 +1463,7 @@ theorem step_lr {R : Int → Prop} {cfg : Config} {t : Tid} {g g' : CG} {l l' : 
     (first | trivial | exact hl | exact ha)
 
 theorem ts_step {R : Int → Prop} {cfg : Config} {g g' : CG} {l : L} {obs : List Obs}
-    (hts : ∀ b, b < g.buckets.length → R (g.bucket b).ts) (hl : LR R l) (he : Eff cfg g l g' obs) :
+    (hts : ∀ b, b < g.buckets.length → R (g.bucket b).ts) (hl : LR R l) (he : WEff cfg g l g' obs) :
     ∀ b, b < g'.buckets.length → R (g'.bucket b).ts := by
   have happ : ∀ (bk : Bucket), g'.buckets = g.buckets ++ [bk] → R bk.ts →
       ∀ b, b < g'.buckets.length → R (g'.bucket b).ts := by
